@@ -223,7 +223,8 @@ class Lane(LaneBase):
                 g.add_edge(s, d, edge_type=['o>', '--', '<>', 'oo', 'o-'][(k + len(nodes)) % 5])
                 retype.append((s, d))
             else:
-                g.add_edge(s, d, edge_type=EdgeType(t) if (k + len(nodes)) % 3 else t, validate=validate)
+                g.add_edge(s, d, edge_type=EdgeType(t) if (k + len(nodes)) % 3 else t,
+                           validate=validate and (len(nodes) + 5 * k + len(tedges)) % 4 != 1)
         for a, b in retype:
             g.change_edge_type(a, b, EdgeType.DIRECTED_EDGE if len(retype) % 2 else '->')
         if validate:
